@@ -762,7 +762,7 @@ func run(c *vlib.Ctx) {
 		c.Note("strace", "not found: "+err.Error())
 		return
 	}
-	c.Cases("update", c.N(24, 160), func(k *vlib.Case) { oneCase(k, "update") })
+	c.Cases("update", c.N(24, 120), func(k *vlib.Case) { oneCase(k, "update") })
 	c.Cases("first", c.N(4, 24), func(k *vlib.Case) { oneCase(k, "first") })
 	c.Cases("notmod", c.N(4, 24), func(k *vlib.Case) { oneCase(k, "notmod") })
 	c.Cases("samesec", c.N(8, 32), func(k *vlib.Case) { oneCase(k, "samesec") })
